@@ -3,6 +3,7 @@ package vuego
 import (
 	"fmt"
 	"reflect"
+	"sort"
 	"strconv"
 	"strings"
 	"sync"
@@ -323,7 +324,8 @@ func (s *Stack) ForEach(expr string, fn func(index int, value any) error) error 
 		}
 		return nil
 	case reflect.Map:
-		keys := rv.MapKeys()
+		// a Go map has no order of its own: the items are visited in the order of their keys
+		keys := sortedMapKeys(rv)
 		for i, key := range keys {
 			if err := fn(i, rv.MapIndex(key).Interface()); err != nil {
 				return err
@@ -337,6 +339,37 @@ func (s *Stack) ForEach(expr string, fn func(index int, value any) error) error 
 }
 
 // Helpers
+
+// sortedMapKeys returns the keys of a map in a fixed order: by kind, then by value
+// (numbers numerically, strings and everything else by their text).
+func sortedMapKeys(rv reflect.Value) []reflect.Value {
+	keys := rv.MapKeys()
+	sort.SliceStable(keys, func(i, j int) bool { return mapKeyLess(keys[i], keys[j]) })
+	return keys
+}
+
+func mapKeyLess(a, b reflect.Value) bool {
+	for a.Kind() == reflect.Interface && !a.IsNil() {
+		a = a.Elem()
+	}
+	for b.Kind() == reflect.Interface && !b.IsNil() {
+		b = b.Elem()
+	}
+	if a.Kind() != b.Kind() {
+		return a.Kind() < b.Kind()
+	}
+	switch a.Kind() {
+	case reflect.Int, reflect.Int8, reflect.Int16, reflect.Int32, reflect.Int64:
+		return a.Int() < b.Int()
+	case reflect.Uint, reflect.Uint8, reflect.Uint16, reflect.Uint32, reflect.Uint64, reflect.Uintptr:
+		return a.Uint() < b.Uint()
+	case reflect.Float32, reflect.Float64:
+		return a.Float() < b.Float()
+	case reflect.String:
+		return a.String() < b.String()
+	}
+	return fmt.Sprint(a) < fmt.Sprint(b)
+}
 
 // splitPathImpl is the actual implementation of path splitting.
 // Called by getCachedPath which caches the results.
